@@ -78,6 +78,8 @@ func (st *state) dispatch(toks []string) (string, string) {
 		return st.apiOp(toks)
 	case "frag":
 		return fragOp(toks), ""
+	case "stress":
+		return stressOp(toks), ""
 	case "conn":
 		return st.connect(toks[1]), ""
 	case "resp":
